@@ -76,10 +76,12 @@ impl Worker for W {
         opts.node_budget = 40 + rng.below(80) as i32;
         opts.fail_pct = 10;
         let g = gen_program(rng, opts);
+        // third witness: what the reference interpreter says the program evaluates to
+        let (expect, _, _) = crate::lang::reval::run_reference(&g.program, 300_000, false);
         let style_bits = rng.next() as u32 & 0b11011;
         let src = print_program(&g.program, Style::from_bits(style_bits));
         Some(json!({
-            "src": src, "feats": g.feats, "pretty": rng.chance(1, 2), "debug_info": rng.chance(1, 2),
+            "src": src, "feats": g.feats, "expect": crate::props::c01::ref_to_json(&expect), "pretty": rng.chance(1, 2), "debug_info": rng.chance(1, 2),
             "cuts": (0..6).map(|_| rng.next() % 10_000).collect::<Vec<u64>>(),
         }))
     }
@@ -113,6 +115,15 @@ impl Worker for W {
                 r.stat("rejected_by_checker", 1);
                 return r;
             }
+        }
+        // A source run that already disagrees with the reference interpreter is a miscompiled
+        // program (C01's findings: wrong stack slots read whatever is there): what its bytecode
+        // does elsewhere is not a statement about serialisation
+        if !case["expect"].is_null() && case["expect"]["fail"] != "stuck" && case["expect"]["fail"] != "budget" && !crate::props::c01::agrees(&case["expect"], &direct) {
+            let mut r = CaseResult::skip("the source run disagrees with the reference interpreter (C01)");
+            r.stat("skipped_source_run_disagrees_with_reference", 1);
+            self.vm = None;
+            return r;
         }
         // ---- serialise
         crate::worker::clear_key();
